@@ -17,7 +17,7 @@ import os
 import vlib
 from framework import graph_replay, replay_tlc_trace
 
-ALL_MODES = ["fn", "fnsync", "retfut", "async", "asyncsync", "setval", "setexc", "late"]
+ALL_MODES = ["fn", "fnsync", "retfut", "async", "asyncsync", "setval", "setexc", "late", "init"]
 ALL_KINDS = ["val", "exc", "drop", "dtor"]
 
 HPC = {"idle": "pre:op", "null_idle": "pre:op", "pre_pload": "pre:pload", "post_pload_p": "post:pload",
@@ -37,6 +37,8 @@ def sset(xs):
 def chain_of(st):
     if st["slot"] == "ready":
         return "ready"
+    if st["slot"] == "inst":
+        return ["instance"]
     out = []
     n = st["slot"]
     while n != "null" and len(out) < 12:
@@ -54,6 +56,7 @@ def proj(st):
         pend[h] = HPC[pc]
     return {
         "st": st["st"],
+        "one": True,
         "use": use if alive else 0,
         "live": st["vlive"],
         "vd": st["vdtor"],
@@ -174,7 +177,7 @@ def run(ctx):
     broken_variant_must_fail(ctx, "v2", "noreset", "AtEnd")
     # mode "shl" (repaired model) is part of the regular configurations unless the tree still has the as-found operator<<
     modes = ALL_MODES + (["shl"] if check_shl(ctx, rp, env) else [])
-    seq_must = ["LateInit", "NullPoll", "PrePload", "PreFence", "PreFinal", "PreDload", "Copy"]
+    seq_must = ["LateInit", "GetPromise", "NullPoll", "PrePload", "PreFence", "PreFinal", "PreDload", "Copy"]
     if ctx.quick:
         ctx.exhaustive = False
         # one handle thread against the resolver: every construction mode, every resolver kind (sampled paths)
@@ -183,7 +186,8 @@ def run(ctx):
         # two handle threads: drop of the last handle against the resolver's chain walk / tracer release
         kinds = [ALL_KINDS[ctx.seed % 4]]
         run_cfg(ctx, rp_asan, "c1", h2, ["fn"], kinds, co=["h1"], bl=["h2"], copies=1, handles=1, must=["Copy"], env=asan_env)
-        run_cfg(ctx, rp, "c2", h2, ["retfut", "async"], ["val"], co=["h2"], po=["h1"], copies=1, handles=1)
+        # (init: copies exist before get_promise(); the earlier copies' awaiters must be released with the result)
+        run_cfg(ctx, rp, "c2", h2, ["retfut", "async", "init"], ["val"], co=["h2"], po=["h1"], copies=1, handles=1, must=["GetPromise"])
         run_cfg(ctx, rp, "c3", h2, ["fn"], ["val"], cb=["h1"], bl=["h2"], copies=2, handles=1)
         run_cfg(ctx, rp, "c4", h2, [modes[-1]], ["val"], co=["h1"], bl=["h2"], po=["h2"], copies=2, handles=2, max_paths=1500)
         tlc_only(ctx, "live", h2, ["fn", "late"], kinds, co=["h1"], bl=["h2"], cb=["h2"], copies=1, handles=1)
@@ -203,6 +207,7 @@ def run(ctx):
                 max_paths=6000, must=["BeginCb"])
         run_cfg(ctx, rp, "c4", h2, ["fn"], ["val", "exc"], co=h2, bl=h2, copies=1, handles=1, env=env, max_paths=6000)
         run_cfg(ctx, rp, "c5", h2, ["fn", "late"], ["val"], cb=h2, po=h2, copies=2, handles=2, env=env, max_paths=6000)
+        run_cfg(ctx, rp, "c6", h2, ["init"], ["val", "dtor"], co=["h2"], bl=["h1"], po=["h2"], copies=2, handles=2, env=env, must=["GetPromise"])
         run_cfg(ctx, rp, "t3", ["h1", "h2", "h3"], ["fn"], ["val"], co=["h2"], bl=["h3"], copies=2, handles=1, env=env)
         # larger bounds, specification only
         tlc_only(ctx, "big", h2, ["fn"], ["val"], co=h2, bl=h2, cb=[], po=h2, copies=2, handles=2)
